@@ -15,7 +15,8 @@ RULE = ("scalars from boundary classes (1, 2, n-1, n-2, 2^k, 2^k-1, 1..31 leadin
         "x both SEC forms x 3 constructors (bytes, int, from_int/parse); rejection corpora: 0, n, n+1, 2^256-1, 2^256, "
         "negatives, byte strings of every length 0..40 except 32, checksummed WIFs carrying such scalars or wrong payload "
         "lengths; SEC rejection: x with no square root, x >= p, wrong y, every prefix byte 0..255, every length 0..70, hybrid "
-        "with inconsistent parity; distinct = distinct (monitor, case) digests")
+        "with inconsistent parity; distinct = distinct (monitor, case) digests"
+        " EXTENSIONS: + from_point with hand-built off-curve / other-curve PointJacobi objects, secrets handed over in caller-owned buffers that are wiped afterwards, leading-zero X / Y corpora, every refusal repeated three times")
 LEVEL_TEXT = ("Every PrivateKey construction / wif / from_wif and PublicKey.parse / sec execution is compared with own "
               "secp256k1 arithmetic and an independent Base58Check codec; rejection is judged by outcome (must raise). "
               "Encodings that ecdsa additionally accepts (raw 64-byte, hybrid 06/07) are sound iff the returned point is the "
@@ -34,6 +35,15 @@ def _mk_priv(k, how):
         return PrivateKey(k)
     if how == "from_int":
         return PrivateKey.from_int(k)
+    if how in ("bytearray-wiped", "memoryview-wiped", "parse-bytearray-wiped"):
+        # the secret arrives in a buffer the CALLER owns and wipes / re-uses right after the call (a careful caller does):
+        # the key object must not follow the buffer.  A constructor that refuses such a buffer (TypeError) is fine.
+        buf = bytearray(k.to_bytes(32, "big"))
+        arg = memoryview(buf) if how == "memoryview-wiped" else buf
+        pk = PrivateKey.parse(arg) if how.startswith("parse") else PrivateKey(arg)
+        for i in range(32):
+            buf[i] = 0xA5
+        return pk
     return PrivateKey.parse(k.to_bytes(32, "big"))
 
 
@@ -44,10 +54,21 @@ def judge_pubkey(ctx, case):
     bad = []
     try:
         pk = _mk_priv(k, case["how"])
+    except TypeError as e:
+        if case["how"].endswith("-wiped"):
+            return ctx.judge("pubkey", True, case, "key", e, cls="%s|%s|refused" % (case["ktag"], case["how"]), outcome="buffer-type-refused")
+        return ctx.judge("pubkey", False, case, "key", e, cls="%s|%s" % (case["ktag"], case["how"]), outcome="raised", mech="C09.pubkey.raised")
     except Exception as e:  # noqa
         return ctx.judge("pubkey", False, case, "key", e, cls="%s|%s" % (case["ktag"], case["how"]), outcome="raised", mech="C09.pubkey.raised")
-    if bytes(pk) != k.to_bytes(32, "big") or pk.k != k.to_bytes(32, "big"):
+    if bytes(pk) != k.to_bytes(32, "big") or bytes(pk.k) != k.to_bytes(32, "big"):
         bad.append(("k_bytes", k.to_bytes(32, "big"), bytes(pk)))
+    if case["how"].endswith("-wiped"):
+        from ..ref import base58 as _rb58
+        for comp in (True, False):
+            w_ = pk.wif(compressed=comp, testnet=False)
+            want_w = _rb58.encode_check(b"\x80" + k.to_bytes(32, "big") + (b"\x01" if comp else b""))
+            if w_ != want_w:
+                bad.append(("wif_after_caller_wiped_its_buffer|comp=%s" % comp, want_w, w_))
     for comp in (True, False):
         want = secp.ser(pt, comp)
         got = pk.K.sec(compressed=comp)
@@ -249,7 +270,8 @@ def run(ctx):
                 judge_wif(ctx, {"k": k, "ktag": ktag})
         for _ in range(ctx.scale(1600, 160000)):
             ktag, k = gen.scalar(rnd)
-            judge_pubkey(ctx, {"k": k, "ktag": ktag.split(":lz")[0] + (":lz" if ":lz" in ktag else ""), "how": rnd.choice(["bytes", "int", "from_int", "parse"])})
+            judge_pubkey(ctx, {"k": k, "ktag": ktag.split(":lz")[0] + (":lz" if ":lz" in ktag else ""),
+                               "how": rnd.choice(["bytes", "int", "from_int", "parse", "bytearray-wiped", "memoryview-wiped", "parse-bytearray-wiped"])})
         for _ in range(ctx.scale(1400, 120000)):
             ktag, k = gen.scalar(rnd)
             judge_wif(ctx, {"k": k, "ktag": ktag.split(":lz")[0] + (":lz" if ":lz" in ktag else "")})
